@@ -93,4 +93,34 @@ theorem gen_applyEvent_eq_model (a b : Bool) (n m : Int) (h : Alias.Heap) (c o :
     Alias.applyEvent h c o = interpApplyEvent (Otel.Gen.C10.applyEvent a b n m) h c o := by
   rw [gen_applyEvent_unconditional]; rfl
 
+/-! ### AddLink and RecordError: no caller memory is retained or written -/
+
+/-- `AddLink`: a nil span, an empty link and an ended span add nothing; otherwise the per-link attribute limit is
+applied (0 = drop all, positive = keep the first `limit`) and the attribute slice is CLONED after the cap and before
+the link is added — on every path that adds a link -/
+theorem gen_add_link_table (isNil validCtx recording : Bool) (nLinkAttrs nTraceState limit nAttrs : Int) :
+    Otel.Gen.C10.addLink isNil validCtx recording nLinkAttrs nTraceState limit nAttrs =
+      (if isNil then ("return", [])
+       else if validCtx = false ∧ nLinkAttrs = 0 ∧ nTraceState = 0 then ("return", [])
+       else if recording = false then ("return", ["lock", "deferUnlock"])
+       else ("<end>", ["lock", "deferUnlock", "l=link", "limit=perLink"] ++
+              (if limit = 0 then ["dropped=n", "attrs=nil"]
+               else if limit > 0 ∧ nAttrs > limit then ["dropped=n-limit", "attrs=attrs[:limit]"] else []) ++
+              ["clone", "add"])) := by
+  unfold Otel.Gen.C10.addLink
+  cases isNil <;> cases validCtx <;> cases recording <;>
+    by_cases h1 : nLinkAttrs = 0 <;> by_cases h2 : nTraceState = 0 <;> by_cases h3 : limit = 0 <;>
+    by_cases h4 : (limit > 0 ∧ nAttrs > limit) <;>
+    simp [h1, h2, h3, h4] <;> (try omega) <;> (repeat' split) <;> (try simp_all) <;> omega
+
+/-- `RecordError`: the exception attributes are appended to a capacity-limited copy of the caller's option slice
+(`opts[:len:len]`), never in place; the stack trace (if asked for) is appended to that copy; one exception event -/
+theorem gen_record_error_table (isNil errNil recording stackTrace : Bool) :
+    Otel.Gen.C10.recordError isNil errNil recording stackTrace =
+      (if isNil || errNil then ("return", [])
+       else if !recording then ("return", ["lock", "deferUnlock"])
+       else ("<end>", ["lock", "deferUnlock", "opts=append(opts[:n:n],type+message)", "config"] ++
+              (if stackTrace then ["opts=append(opts,stacktrace)"] else []) ++ ["addEvent(exception)"])) := by
+  cases isNil <;> cases errNil <;> cases recording <;> cases stackTrace <;> rfl
+
 end Otel.C10.GenTie
